@@ -4,6 +4,8 @@ import (
 	"bytes"
 	"errors"
 	"fmt"
+	"maps"
+	"slices"
 
 	"github.com/shiwano/errdef"
 	"github.com/shiwano/errdef/resolver"
@@ -96,7 +98,11 @@ func (d *Unmarshaler[T]) unmarshal(decoded *DecodedData) (UnmarshaledError, erro
 	fields := make(map[errdef.FieldKey]errdef.FieldValue)
 	unknownFields := make(map[string]any)
 
-	for fieldName, fieldValue := range decoded.Fields {
+	// Visit the fields in name order: with several failing fields the reported
+	// failure (and, for a cause, whether it degrades to an unknown cause or fails
+	// the whole call) must not depend on map iteration order.
+	for _, fieldName := range slices.Sorted(maps.Keys(decoded.Fields)) {
+		fieldValue := decoded.Fields[fieldName]
 		keys := def.Fields().FindKeys(fieldName)
 		matched := false
 
